@@ -158,7 +158,7 @@ impl AisParser {
         if self.message_id != ais_sentence.message_id {
             return Err("Message ID out of sequence".into());
         }
-        if ais_sentence.fragment_number - self.fragment_number != 1 {
+        if self.fragment_number.checked_add(1) != Some(ais_sentence.fragment_number) {
             return Err("Fragment numbers out of sequence".into());
         }
         self.fragment_number = ais_sentence.fragment_number;
